@@ -1,5 +1,7 @@
 import Tengo.Props.C11
 import Tengo.Props.C11Compile
+import Tengo.Props.C11Place
 /-! C11: the symbol-table theorems (`C11`) and rename invariance of the whole compiler model
-(`C11Compile`: a consistently renamed program compiles to the SAME bytecode), as one module for the
-checker. -/
+(`C11Compile`: a consistently renamed program compiles to the SAME bytecode), and the PLACEMENT theorem global ↦ local on
+fragment F3 (`C11Place`: the same statements over global variables / over locals of a called function compute
+the same values, on `F3.exec` and on `compileFile` + `VM.run`), as one module for the checker. -/
